@@ -142,4 +142,20 @@ def run(tier, seed, replay):
     rep.assumptions = ["NOT proved and not provable: global collision-freeness of 64-bit FNV-1a; the theorem C14_hash_differs_under_no_collision_assumption carries it as an explicit premise",
                        "type names come from core::any::type_name of the build under test; add_custom bytes are outside the model",
                        "handshake (authorized iff hashes equal, mismatch notification + disconnect request) is proved on the check_protocol model and exercised end to end in the sim runs"]
+    # the handshake on whole apps (default authorization method): exactly the clients whose hash matches are authorized
+    import simcheck
+    rc, out = build_harness(["sim"])
+    if rc == 0:
+        kws = [dict(auth="proto", nclients=2, events=True), dict(auth="proto", nclients=3, sessions=True, weights=dict(session=0.5)), dict(auth="proto", nclients=2, policy="white")]
+        o2, d2 = simcheck.sim_collect(rep, "C14", tier, rng, seed, kws, 60, 6000, oracle_props={"C14"},
+                                      rule_extra=", AuthMethod::ProtocolCheck with one client built with an extra registration (different hash), a Connecting phase before Connected in some connections, "
+                                                 "hash messages delivered late, lost with the connection, or followed by an immediate disconnect")
+        if o2 and not oracle_fail:
+            f = o2[0]
+            rep.violation("oracle", dict(what="implementation violates C14 on a concrete script", problem=f["problem"], script=f.get("shrunk", f["script"])), True)
+            return rep.finish()
+        if d2 and not (oracle_fail or diverged):
+            f = d2[0]
+            rep.violation("correspondence", dict(what="Layer 1 model and implementation disagree", first_divergence=f.get("shrunk_divergence", f["divergence"]), script=f.get("shrunk", f["script"])), False)
+            return rep.finish()
     return conclude(rep, proofs_ok, oracle_fail, diverged, "RV.Hash.{Fnv,Protocol}")
